@@ -274,10 +274,10 @@ func unionProgram(r *Rng) []byte {
 		}
 		for j := 0; j < r.Range(3, 8); j++ {
 			u := fmt.Sprintf("u%d", r.Intn(k+1))
-			switch r.Intn(8) {
+			switch r.Intn(9) {
 			case 0, 1:
 				fmt.Fprintf(&sb, "r%d%d = %s.%s\n", k, j, u, strings.TrimPrefix(r.Pick(methods), "+ "))
-			case 2:
+			case 2, 8:
 				fmt.Fprintf(&sb, "%s&.%s\n", u, strings.TrimPrefix(r.Pick(methods), "+ "))
 			case 3:
 				fmt.Fprintf(&sb, "h%d%d = {**%s, port: 8080}\nh%d%d[:%s]\nh%d%d.values\n", k, j, u, k, j, r.Pick([]string{"port", "zz", "a"}), k, j)
@@ -291,6 +291,24 @@ func unionProgram(r *Rng) []byte {
 				fmt.Fprintf(&sb, "if %s.nil? && @%s.nil?\n  p 1\nelse\n  p %s + 1, @%s\nend\n", u, u, u, u)
 			}
 		}
+	}
+	if r.Chance(2, 3) {
+		// the same statements as the body of a method whose parameters supply the flags and the
+		// unknown values (parameters are untyped until a call says otherwise), then a call
+		full := sb.String()
+		i := strings.Index(full, "end\nend\n") + len("end\nend\n")
+		head, body := full[:i], full[i:]
+		var out strings.Builder
+		out.WriteString(head)
+		out.WriteString("def run(opts, cfg, flag0, flag1 = nil, flag2 = nil, flag3 = nil, flag4 = nil)\n")
+		for _, l := range strings.Split(strings.TrimRight(body, "\n"), "\n") {
+			out.WriteString("  " + l + "\n")
+		}
+		out.WriteString("end\n")
+		if r.Chance(2, 3) {
+			out.WriteString(r.Pick([]string{"run([1], {k: 1}, true)\n", "run(nil, nil, false, 1)\n", "x = run([{a: 1}], {}, true, false)\nx.foo\n"}))
+		}
+		return []byte(out.String())
 	}
 	return []byte(sb.String())
 }
@@ -994,7 +1012,7 @@ func (o *tiSession) Make(c *Ctx, i int) *Case {
 		return cs
 	}
 	src, origin := pickProgram(c, r, false)
-	if r.Chance(1, 10) {
+	if r.Chance(1, 6) {
 		// a finished file of one of the size- and shape-dependent kinds (deep and diamond
 		// hierarchies, cycles, big literals, identifier chains): the queries walk class
 		// hierarchies of their own — completion asks, for every known signature, whether its
@@ -1003,9 +1021,9 @@ func (o *tiSession) Make(c *Ctx, i int) *Case {
 		src, origin = shapedProgram(r)
 		cs.Meta["origin"] = origin
 		lines := bytes.Count(src, []byte("\n"))
-		for k := 0; k < r.Range(4, 9); k++ {
+		for k := 0; k < r.Range(6, 14); k++ {
 			row := lines - r.Intn(min(lines, 12))
-			if r.Chance(1, 4) {
+			if r.Chance(1, 2) {
 				row = 1 + r.Intn(lines+1)
 			}
 			rc := rowClass(src, row)
